@@ -67,6 +67,9 @@ func classifyStd(fn *ssa.Function) stdInfo {
 	case "errors.New":
 		return stdInfo{Class: stdPure, MutArg: -1, Fresh: true, NoPanic: true, CallsArg: -1}
 	}
+	if name == "(*sync.Once).Do" {
+		return stdInfo{Class: stdPure, MutArg: -1, CallsArg: 1, NoPanic: true} // runs the callback at most once; thread-safe by contract
+	}
 	if pkg == "slices" {
 		fnName := fn.Name()
 		if o := fn.Origin(); o != nil {
@@ -78,7 +81,9 @@ func classifyStd(fn *ssa.Function) stdInfo {
 		case fnName == "Compact", fnName == "CompactFunc", fnName == "Delete", fnName == "DeleteFunc", fnName == "Insert", fnName == "Replace", fnName == "Grow", fnName == "Clip":
 			return stdInfo{Class: stdMutatesArg, MutArg: 0, CallsArg: -1}
 		case fnName == "Contains", fnName == "ContainsFunc", fnName == "Index", fnName == "IndexFunc", fnName == "Equal", fnName == "EqualFunc",
-			fnName == "BinarySearch", fnName == "BinarySearchFunc", fnName == "IsSorted", fnName == "IsSortedFunc", fnName == "Max", fnName == "Min", fnName == "Compare":
+			fnName == "BinarySearch", fnName == "BinarySearchFunc", fnName == "IsSorted", fnName == "IsSortedFunc", fnName == "Compare":
+			return stdInfo{Class: stdPure, MutArg: -1, CallsArg: -1, NoPanic: true}
+		case fnName == "Max", fnName == "Min":
 			return stdInfo{Class: stdPure, MutArg: -1, CallsArg: -1}
 		case fnName == "Clone", fnName == "Concat":
 			return stdInfo{Class: stdPure, MutArg: -1, Fresh: true, CallsArg: -1}
